@@ -283,11 +283,61 @@ def cpp_values(acc, wd, gen, items, stem, full=False):
     return out
 
 
+def isar_operator_and_include_scenario(acc, wd, rng):
+    """isar only, judged on the model prophyc returns: (a) shiftLeft / bitMaskOr calls nested in themselves and in each
+    other; (b) constants spread over an included file and a same-named file in a sub-directory that is reached through
+    another include (limits.xml and codec/limits.xml): every constant must keep its integer, every array its extent."""
+    import prophyc.model as M
+    d = os.path.join(wd, 'ops')
+    os.makedirs(os.path.join(d, 'codec'))
+    os.makedirs(os.path.join(d, 'out'))
+    a, b, c = rng.randint(1, 3), rng.randint(1, 2), rng.randint(1, 5)
+    consts = [('OP_SS', 'shiftLeft(1, shiftLeft(1, %d))' % b, 1 << (1 << b)),
+              ('OP_OO', 'bitMaskOr(bitMaskOr(%d, 8), 32)' % a, a | 8 | 32),
+              ('OP_OS', 'bitMaskOr(shiftLeft(1, %d), shiftLeft(1, 5))' % a, (1 << a) | 32),
+              ('OP_SO', 'shiftLeft(bitMaskOr(1, 2), %d)' % b, 3 << b),
+              ('OP_OOO', 'bitMaskOr(bitMaskOr(bitMaskOr(1, 2), 4), %d)' % (8 * c), 7 | (8 * c))]
+    root_limits = [('LIM_A', '%d' % (a + 1), a + 1), ('LIM_B', 'LIM_A * 2', 2 * (a + 1))]
+    codec_limits = [('CLIM_A', '%d' % (c + 2), c + 2), ('CLIM_B', 'CLIM_A + 1', c + 3)]
+    open(os.path.join(d, 'limits.xml'), 'w').write('<x>%s</x>' % ''.join('<constant name="%s" value="%s"/>' % x[:2] for x in root_limits))
+    open(os.path.join(d, 'codec', 'limits.xml'), 'w').write('<x>%s</x>' % ''.join('<constant name="%s" value="%s"/>' % x[:2] for x in codec_limits))
+    open(os.path.join(d, 'codec', 'x.xml'), 'w').write(
+        '<x xmlns:xi="http://www.w3.org/2001/XInclude"><xi:include href="limits.xml"/>'
+        '<struct name="CX"><member name="a" type="u16"><dimension size="CLIM_B"/></member></struct></x>')
+    sizes = [(n, v) for n, t, v in consts + root_limits + codec_limits if 1 <= v <= 64]
+    first = rng.choice(['codec/x.xml', 'limits.xml'])
+    second = 'limits.xml' if first == 'codec/x.xml' else 'codec/x.xml'
+    main = ('<x xmlns:xi="http://www.w3.org/2001/XInclude"><xi:include href="%s"/><xi:include href="%s"/>%s'
+            '<struct name="OPS">%s</struct></x>' % (
+                first, second, ''.join('<constant name="%s" value="%s"/>' % x[:2] for x in consts),
+                ''.join('<member name="f%d" type="u8"><dimension size="%s"/></member>' % (i, n) for i, (n, v) in enumerate(sizes))))
+    open(os.path.join(d, 'main.xml'), 'w').write(main)
+    exc, _, nodes = pc.run_main(['--quiet', '--isar', '--python_out', os.path.join(d, 'out'), os.path.join(d, 'main.xml')])
+    acc.ev()
+    acc.count('isar_operator_and_include_scenarios')
+    wit = {'format': 'isar', 'main.xml': main, 'limits.xml': open(os.path.join(d, 'limits.xml')).read(),
+           'codec/limits.xml': open(os.path.join(d, 'codec', 'limits.xml')).read()}
+    if exc is not None:
+        acc.violation(PROP, 'well-formed-expressions-rejected:%s' % type(exc).__name__,
+                      dict(wit, error='%s: %s' % (type(exc).__name__, str(exc)[:400])))
+        return
+    ops = [n for n in nodes['main'] if isinstance(n, M.Struct) and n.name == 'OPS'][0]
+    for m, (n, v) in zip(ops.members, sizes):
+        acc.count('model_values_checked')
+        if m.numeric_size != v:
+            acc.violation(PROP, 'model-numeric_size-value-differs:array-size', dict(wit, name=n, expected=v, got=repr(m.numeric_size)))
+            return
+    if ops.byte_size != sum(v for n, v in sizes):
+        acc.violation(PROP, 'model-layout-size-differs', dict(wit, model=ops.byte_size, reference=sum(v for n, v in sizes)))
+
+
 def run_shard(spec):
     acc = Acc()
     rng = random.Random(spec['seed'])
     fmt = spec['fmt']
     with C.Workdir() as wd:
+        if fmt == 'isar' and spec['kind'] != 'replay':
+            isar_operator_and_include_scenario(acc, wd, rng)
         for round_ in range(6):
             neutral = round_ != 5
             sch, items = build_schema(rng, fmt, spec['redundant'], neutral)
@@ -470,7 +520,8 @@ def finish(ctx, merged, specs):
         return
     need = ['op:+', 'op:-', 'op:*', 'op:/', 'op:<<', 'op:>>', 'op:neg', 'op:name', 'op:base16', 'op:base8']
     missing = [f for f in need if f not in merged['features']]
-    for k in ('model_values_checked', 'python_values_checked', 'cpp_values_checked', 'calc_values_checked'):
+    for k in ('model_values_checked', 'python_values_checked', 'cpp_values_checked', 'calc_values_checked',
+              'isar_operator_and_include_scenarios'):
         if not merged['counters'].get(k):
             missing.append(k)
     if missing and not merged['inconclusive']:
